@@ -430,7 +430,7 @@ pub fn run_c16(tier: &str) -> i32 {
     // (max tokens per line, max lines)
     let plans: Vec<(usize, usize)> = if thorough { vec![(2, 3), (3, 2)] } else { vec![(2, 2), (3, 1)] };
     rep.set("token_alphabet", json!(TOK_16));
-    rep.set("bounds", json!(format!("texts with (tokens per line, lines) <= {:?} over 10 look-alike tokens; (a) directive-free texts verbatim, (b) write-escape round trip of every admissible text with and without a stored tag, (c) ordinary lines in order on the C01 core space", plans)));
+    rep.set("bounds", json!(format!("texts with (tokens per line, lines) <= {:?} over 10 look-alike tokens; (a) directive-free texts verbatim, (b) write-escape round trip of every admissible text without a stored tag, with one, and captured by a second tag and injected next to the first, (c) ordinary lines in order on the C01 core space", plans)));
     rep.assume("which lines are 'directive lines' is decided by the reference grammar (checked against the implementation by C15)");
     for (pi, (max_tok, max_lines)) in plans.iter().enumerate() {
         let lines = lines_over_tokens(*max_tok);
@@ -484,11 +484,18 @@ pub fn run_c16(tier: &str) -> i32 {
                 {
                     for crlf in [false, true] {
                         let le = if crlf { "\r\n" } else { "\n" };
-                        for with_tag in [false, true] {
+                        for variant in 0..3u8 {
+                            let with_tag = variant == 1;
+                            // variant 2: the written text is captured by tag U and injected on a line that also uses tag T
+                            // (the text may contain the spelling "T"): injected text is not searched for tags again
+                            let captured = variant == 2;
                             let mut src_lines: Vec<String> = vec![];
-                            if with_tag {
+                            if with_tag || captured {
                                 src_lines.push("-TXTPP#tag T".into());
                                 src_lines.push("+TXTPP#write V".into());
+                            }
+                            if captured {
+                                src_lines.push("=TXTPP#tag U".into());
                             }
                             src_lines.push(format!("-TXTPP#write {}", text[0]));
                             for l in &text[1..] {
@@ -497,6 +504,10 @@ pub fn run_c16(tier: &str) -> i32 {
                             if with_tag {
                                 src_lines.push("+TXTPP#".into());
                                 src_lines.push("T".into());
+                            }
+                            if captured {
+                                src_lines.push("+TXTPP#".into());
+                                src_lines.push("U T".into());
                             }
                             let refs: Vec<&str> = src_lines.iter().map(|s| s.as_str()).collect();
                             let src = build_source(&refs, crlf, true);
@@ -507,12 +518,15 @@ pub fn run_c16(tier: &str) -> i32 {
                             if any_dir {
                                 rep.add("b_round_trips_of_texts_containing_directive_lines", 1);
                             }
-                            let mut want = text.join(le);
-                            if text.last() == Some(&"") && text.len() > 0 {
-                                // a final empty line: the written text ends with a line ending
+                            if captured {
+                                rep.add("b_round_trips_through_a_tag", 1);
                             }
+                            let mut want = text.join(le);
                             if with_tag {
                                 want.push('V');
+                            }
+                            if captured {
+                                want.push_str(" V");
                             }
                             want.push_str(le);
                             let want = want.into_bytes();
@@ -523,7 +537,7 @@ pub fn run_c16(tier: &str) -> i32 {
                                     rj("C16", &src, json!({"tn": true, "part": "b", "expected_b64": b64(&want)})),
                                 );
                             }
-                            shapes.insert(format!("b:{}", (with_tag as u8) | (any_dir as u8) << 1));
+                            shapes.insert(format!("b:{}", variant | (any_dir as u8) << 2));
                         }
                     }
                 }
